@@ -267,7 +267,38 @@ let judge_unary args forms =
   | "abs" -> one [ "v"; "r"; "uv"; "ur" ] (Zar.abs a)
   | "mulsign" -> one [ "xs"; "sx"; "as" ] (Zar.mul a (sgn_of (List.nth args 2)))
   | "umulsign" -> one [ "xs"; "sx" ] (Zar.mul a (sgn_of (List.nth args 2)))
+  | "rootu" | "rooti" ->
+      (* roots towards zero; the square root of a negative IBig is the documented panic *)
+      let neg = Zar.sign a < 0 in
+      let sq = if neg then P "RootNegative" else V (hx (Zar.sqrt a)) in
+      let cb = let r = Zar.root (Zar.abs a) 3 in if neg then Zar.neg r else r in
+      let want n = exactly (match n with
+        | "sqrt_t" | "sqrt_n" -> sq
+        | "sqrtrem_t" -> let r = Zar.sqrt a in V (hx r ^ "," ^ hx (Zar.sub a (Zar.mul r r)))
+        | "cbrt_t" | "cbrt_n" -> V (hx cb)
+        | _ -> V (hx cb ^ "," ^ hx (Zar.sub a (Zar.mul cb (Zar.mul cb cb))))) in
+      verdict ~cls:("un-" ^ op)
+        (if op = "rootu" then [ "sqrt_t"; "sqrt_n"; "sqrtrem_t"; "cbrt_t"; "cbrt_n"; "cbrtrem_t" ] else [ "sqrt_t"; "sqrt_n"; "cbrt_t"; "cbrt_n" ])
+        forms want
+  | "addround" ->
+      let d = match List.nth args 2 with "AddOne" -> Zar.one | "SubOne" -> Zar.minus_one | _ -> Zar.zero in
+      one [ "v"; "r"; "a" ] (Zar.add a d)
+  | "upow" | "ipow" ->
+      let n = Zar.to_int (z (List.nth args 2)) in
+      one [ "m"; "prod_v"; "prod_r"; "fold" ] (Zar.pow a n)
   | _ -> fail ("unknown-op-un-" ^ op)
+
+(* the operators taking a prepared divisor (&ConstDivisor) next to the plain operators: truncating division *)
+let judge_constdiv kind args forms =
+  let op = List.nth args 0 and a = z (List.nth args 1) and d = z (List.nth args 2) in
+  let cls = kind ^ "-" ^ op in
+  let names = [ "big"; "v"; "r"; "a" ] in
+  let w = match op with
+    | "div" -> of_res hx (iop_spec IoDiv a d)
+    | "rem" -> of_res hx (iop_spec IoRem a d)
+    | "divrem" -> of_res pair (divrem_spec a d)
+    | _ -> P "unknown-op" in
+  verdict ~cls names forms (all_same (exactly w))
 
 (* ---------------------------------------------------------------- floats *)
 let mode_of = function
@@ -323,14 +354,16 @@ let judge_fbin ?(known_ok = true) cls b m op (p1, x1) (p2, x2) names forms =
       let first = (match forms with (_, f) :: _ -> f | [] -> P "none") in
       let same_as_first txt okf = { ok = (fun g -> g = first && okf g); txt } in
       let over = Zar.sign p <> 0 && (Zar.gt (dlen b s1) p || Zar.gt (dlen b s2) p) in
-      (* the open class float_operand_exceeds_precision, exactly (Forms/FormsFloatR3.v float_mul_class,
-         float_div_class_exact); + and - are outside it since the repair of the zero shortcut *)
+      (* the former class float_operand_exceeds_precision (Forms/FormsFloatR3.v float_mul_class,
+         float_div_class_exact) is closed since the repairs 675af08 / da565f6 (Forms/FormsFloatR4.v): the
+         histogram still tells how many cases lie in it *)
       let two_p = Zar.mul (Zar.of_int 2) p in
-      let in_class = Zar.sign p <> 0 && (match op with
+      let was_class = Zar.sign p <> 0 && (match op with
         | "mul" -> Zar.gt (dlen b s1) two_p || Zar.gt (dlen b s2) two_p
         | "div" -> Zar.gt (dlen b s1) (Zar.add p (dlen b s2))
         | _ -> false) in
-      let cls = if over then cls ^ "-over" else cls in
+      let in_class = false in
+      let cls = if was_class then cls ^ "-formerclass" else if over then cls ^ "-over" else cls in
       let tag = "float_operand_exceeds_precision" in
       let shown r = V (fshow b p r) in
       let contract x = same_as_first "rounding-contract+all-forms-identical" (contract_ok b p m x) in
@@ -361,7 +394,7 @@ let judge_fbin ?(known_ok = true) cls b m op (p1, x1) (p2, x2) names forms =
        | "mul" ->
            let (n, d) = qmul q1 q2 in
            let asis nme = exactly (shown (match nme with
-             | "ctx" -> approx_val (ctx_mul b p m s1 e1 s2 e2)
+             | "ctx" -> fmul_ctx_r4 b p m s1 e1 s2 e2
              | _ -> fmul_op b p m s1 e1 s2 e2)) in
            vk asis (all_same (contract (XRat (n, d))))
        | "div" ->
@@ -369,11 +402,10 @@ let judge_fbin ?(known_ok = true) cls b m op (p1, x1) (p2, x2) names forms =
            else
              let shr = function Ok r -> shown r | e -> of_res (fun _ -> "") e in
              let asis nme = exactly (match nme with
-               | "ctx" -> shr (fdiv_ctx b p m s1 e1 s2 e2)
-               | _ -> shr (fdiv_op b p m s1 e1 s2 e2)) in
+               | "ctx" -> shr (fdiv_ctx_r4 b p m s1 e1 s2 e2)
+               | _ -> shr (fdiv_op_r4 b p m s1 e1 s2 e2)) in
              if Zar.sign s2 = 0 then
-               (* the integer division raises the documented panic - unless the operator's debug
-                  assertion on an over-long dividend fires first (class float_operand_exceeds_precision) *)
+               (* the integer division raises the documented panic *)
                vk asis (all_same (exactly (P "DivideBy0")))
              else
                let (n, d) = qdiv q1 q2 in
@@ -435,7 +467,7 @@ let judge_funary args forms =
   let cls = "fu-" ^ op in
   let first = (match forms with (_, f) :: _ -> f | [] -> P "none") in
   let agree names = verdict ~cls:(cls ^ "-inf") ~nt:false names forms (all_same { ok = (fun g -> g = first); txt = "all-forms-identical" }) in
-  let contract names x = verdict ~cls names forms (all_same { ok = (fun g -> g = first && contract_ok b p m x g); txt = "rounding-contract+all-forms-identical" }) in
+  let contract ?asis names x = verdict ~cls ?asis names forms (all_same { ok = (fun g -> g = first && contract_ok b p m x g); txt = "rounding-contract+all-forms-identical" }) in
   match op, x with
   | "neg", Inf _ -> agree [ "v"; "r" ]
   | "neg", Fin (s, e) -> verdict ~cls [ "v"; "r" ] forms (all_same (exactly (V (fshow b p (Zar.neg s, e)))))
@@ -452,8 +484,12 @@ let judge_funary args forms =
            else if Zar.sign s = 0 then verdict ~cls names forms (all_same (exactly (P "DivideBy0")))
            else let (n, d) = qdiv (Zar.one, Zar.one) (frac b s e) in contract names (XRat (n, d)))
   | ("sqr" | "cubic"), Inf _ -> verdict ~cls [ "m"; "ctx" ] forms (all_same (exactly (P "OperateWithInf")))
-  | "sqr", Fin (s, e) -> let q = frac b s e in let (n, d) = qmul q q in contract [ "m"; "ctx" ] (XRat (n, d))
-  | "cubic", Fin (s, e) -> let q = frac b s e in let (n, d) = qmul q (qmul q q) in contract [ "m"; "ctx" ] (XRat (n, d))
+  | "sqr", Fin (s, e) ->
+      let q = frac b s e in let (n, d) = qmul q q in
+      contract ~asis:(all_same (exactly (V (fshow b p (fsqr_r4 b p m s e))))) [ "m"; "ctx" ] (XRat (n, d))
+  | "cubic", Fin (s, e) ->
+      let q = frac b s e in let (n, d) = qmul q (qmul q q) in
+      contract ~asis:(all_same (exactly (V (fshow b p (fcubic_r4 b p m s e))))) [ "m"; "ctx" ] (XRat (n, d))
   | _ -> fail ("unknown-op-fu-" ^ op)
 
 let judge_fprim args forms =
@@ -660,7 +696,8 @@ let judge_clone_reduced args forms =
   verdict ~cls [ "reduced"; "chain" ] forms want
 
 (* ---------------------------------------------------------------- Sum / Product, method vs Context *)
-let fold_names = [ "owned"; "refs"; "fold_v"; "fold_r" ]
+let fold_names = [ "owned"; "refs"; "fold_v"; "fold_r"; "fold_rv" ]
+let prim_fold_names = [ "prims"; "prims_r" ]
 let rec drop n l = if n <= 0 then l else match l with [] -> [] | _ :: t -> drop (n - 1) t
 let rec pairs = function a :: b :: t -> (a, b) :: pairs t | _ -> []
 
@@ -672,8 +709,13 @@ let judge_iter args forms =
   match kind with
   | "u" | "i" ->
       let vs = List.map z rest in
-      let r = if op = "sum" then List.fold_left Zar.add Zar.zero vs else List.fold_left Zar.mul Zar.one vs in
-      verdict ~cls fold_names forms (all_same (exactly (V (hx r))))
+      let fold l = if op = "sum" then List.fold_left Zar.add Zar.zero l else List.fold_left Zar.mul Zar.one l in
+      (* primitive items: the low 16 bits of every item (u16 for UBig, i16 for IBig) *)
+      let low16 v = let u = Zar.logand v (Zar.of_int 0xffff) in
+        if kind = "i" && Zar.geq u (Zar.of_int 0x8000) then Zar.sub u (Zar.of_int 0x10000) else u in
+      let rp = fold (List.map low16 vs) and r = fold vs in
+      verdict ~cls (fold_names @ prim_fold_names) forms
+        (fun n -> exactly (V (hx (if List.mem n prim_fold_names then rp else r))))
   | "q" | "x" ->
       let vs = List.map (fun (n, d) -> canon (z n) (z d)) (pairs rest) in
       let o = if op = "sum" then OAdd else OMul in
@@ -698,7 +740,7 @@ let judge_iter_float args forms =
     let want o =
       let (p, (s, e)) = if op = "sum" then fsum_asis_x b m o items else fprod_asis b m items in
       exactly (V (fshow b p (s, e))) in
-    let spec n = match n with "refs" | "fold_r" -> want OVR | _ -> want OVV in
+    let spec n = match n with "refs" | "fold_r" -> want OVR | "fold_rv" -> want ORR | _ -> want OVV in
     verdict ~cls:("itf-" ^ op) ~asis:spec fold_names forms spec
   end
 
@@ -729,6 +771,7 @@ let judge op args got =
        | "up" | "ip" -> judge_prim op args forms
        | "ush" | "ish" -> judge_shift op args forms
        | "un" -> judge_unary args forms
+       | "cdu" | "cdi" -> judge_constdiv op args forms
        | "f" -> judge_float args forms
        | "fsh" -> judge_fshift args forms
        | "fu" -> judge_funary args forms
